@@ -93,8 +93,22 @@ fn chain_program(rng: &mut Rng, alias: bool) -> Program {
         let cs: Vec<Vec<G>> = (0..2 + rng.below(2)).map(|_| vec![G::Eq(x.clone(), T::Int(small(rng)))]).collect();
         goals.push(G::Conde(cs));
     }
+    if rng.chance(1, 3) {
+        // tree disequalities in the same store as the suspended arithmetic constraints (posted
+        // before or after them, on their operands or on an unrelated variable): pushing and
+        // re-running a disequality rebuilds the store and must keep every other constraint
+        for _ in 0..1 + rng.below(2) {
+            let x = v(rng.below(nv) as V);
+            goals.push(match rng.below(4) {
+                0 => G::Diseq(x, T::Int(small(rng))),
+                1 => G::Diseq(x, v(rng.below(nv) as V)),
+                2 => G::Diseq(T::list(vec![x, v(rng.below(nv) as V)]), T::list(vec![T::Int(small(rng)), T::Int(small(rng))])),
+                _ => G::Diseq(v(nv as V), T::Int(small(rng))),
+            });
+        }
+    }
     rng.shuffle(&mut goals);
-    Program::new((0..nv as V).collect(), goals)
+    Program::new((0..=nv as V).collect(), goals)
 }
 
 const FIXED: [&str; 8] = ["plus-ground-true", "plus-all-unbound-then-bound", "times-nondivisible", "times-zero-zero", "times-zero-nonzero", "times-zero-late", "plus-late-conflict", "times-all-unbound"];
@@ -127,7 +141,7 @@ impl Check for C19 {
         ]
     }
     fn rule(&self) -> &'static str {
-        "'single' (enumerated, seed-independent): plusz and timesz over three operands, every groundness pattern (8), every way of writing a ground operand as a literal or as a variable bound by == (8), all values -3..=3 of the ground operands (incl. 0 and non-divisible products), and EVERY interleaving of the constraint with the bindings of its operands; 'alias': 1-2 constraints over 2-3 variables with arbitrary operand aliasing and constants, 0-3 bindings (to integers or to each other), optionally a conde of bindings, in random order; 'chain': 2-3 constraints sharing 3-5 variables; 'fixed': 8 hand-written programs. Real answers vs the reference integer model (functional propagation to a fixpoint: two ground operands determine the third, contradiction fails, 0*r=0 stays constrained) as multisets of answer tuples up to renaming; any panic is a violation. Distinct = distinct program text; non-trivial = every program (each has a constraint)."
+        "'single' (enumerated, seed-independent): plusz and timesz over three operands, every groundness pattern (8), every way of writing a ground operand as a literal or as a variable bound by == (8), all values -3..=3 of the ground operands (incl. 0 and non-divisible products), and EVERY interleaving of the constraint with the bindings of its operands; 'alias': 1-2 constraints over 2-3 variables with arbitrary operand aliasing and constants, 0-3 bindings (to integers or to each other), optionally a conde of bindings, one program in three with 1-2 tree disequalities (on the operands, between them, multi-pair, or on an unrelated variable) in the same store, in random order; 'chain': 2-3 constraints sharing 3-5 variables; 'fixed': 8 hand-written programs. Real answers vs the reference integer model (functional propagation to a fixpoint: two ground operands determine the third, contradiction fails, 0*r=0 stays constrained) as multisets of answer tuples up to renaming; any panic is a violation. Distinct = distinct program text; non-trivial = every program (each has a constraint)."
     }
     fn assumptions(&self) -> Vec<String> {
         vec!["reference: integer arithmetic with wake-on-two-ground propagation (pvmon::refsem::settle)".into(), "operands are variables or integers and all intermediate integers are tiny, as C23's well-formedness demands".into()]
